@@ -210,7 +210,7 @@ PANIC_CALLS = [
     (r"slice::<impl \[T\]>::(copy_from_slice|clone_from_slice|split_at|split_at_mut|chunks|chunks_exact|windows|swap|rotate_left|rotate_right|select_nth_unstable)$"
      r"|str::<impl str>::(split_at|split_at_mut)$"
      r"|vec::Vec::<T, A>::(remove|insert|swap_remove|drain|split_off|splice)$"
-     r"|string::String::(remove|insert|insert_str|drain|split_off|replace_range)$"
+     r"|string::String::(remove|insert|insert_str|drain|split_off|replace_range|truncate)$"      # truncate: panics off a char boundary
      r"|collections::VecDeque::<T, A>::(swap|drain|split_off|insert|range)$"
      r"|cell::RefCell::<T>::(borrow|borrow_mut)$"
      r"|bytes::(Bytes|BytesMut)::(split_to|split_off|slice|advance|truncate_unchecked)$|bytes::Buf::(advance|copy_to_slice|get_[ui]\d+\w*|split_to)$"
